@@ -277,6 +277,7 @@ func Main(t *testing.T) {
 				cfg.Deadline = env.Deadline
 			}
 			cfg.KeepGoing = true
+			cfg.PostPoints = !cfg.NoPostPoints
 			rep = Explore(cfg, body)
 		}
 		out.Reports = append(out.Reports, rep)
@@ -307,7 +308,8 @@ func replayFile(t *testing.T, env Env) {
 		fails = s.ReplayCustom(v.Input)
 	} else {
 		cfg, body := s.Setup(env.Tier)
-		e := RunOnce(v.Picks, Options{MaxSteps: cfg.MaxSteps, TimerBudget: cfg.TimerBudget, Trace: true, AllowDeadlock: cfg.AllowDeadlock}, body)
+		cfg.PostPoints = !cfg.NoPostPoints
+		e := RunOnce(v.Picks, Options{MaxSteps: cfg.MaxSteps, TimerBudget: cfg.TimerBudget, Trace: true, AllowDeadlock: cfg.AllowDeadlock, PostPoints: cfg.PostPoints}, body)
 		for _, l := range RenderTrace(e) {
 			fmt.Println("  " + l)
 		}
